@@ -448,7 +448,7 @@ def damage(rng, text, kind=None):
     kind = kind or rng.choice([
         'del_tok', 'del_tok', 'del_sub', 'dup_tok', 'stray_close',
         'missing_close', 'bare_top', 'top_string', 'swap', 'empty_list',
-        'del_many'
+        'del_many', 'odd_index'
     ])
     n = len(toks)
     if kind == 'del_tok':
@@ -514,6 +514,15 @@ def damage(rng, text, kind=None):
     elif kind == 'empty_list':
         i = rng.randrange(n + 1)
         toks[i:i] = ['(', ')']
+    elif kind == 'odd_index':
+        # an index of an indexed identifier / sort that is no numeral:
+        # (_ BitVec n), (_ BitVec (w)), ((_ extract 1.5 0) x), (_ bv3 #x8)
+        idx = [i for i in range(3, n)
+               if toks[i].isdigit() and '_' in toks[max(0, i - 3):i]]
+        if idx:
+            i = rng.choice(idx if rng.random() < 0.5 else idx[:1])
+            toks[i:i + 1] = rng.choice([['n'], ['(', 'w', ')'], ['1.5'],
+                                        ['#x8'], ['"8"'], ['-1'], ['(', ')']])
     return render_tokens(toks), kind
 
 
